@@ -242,6 +242,8 @@ func main() {
 	genApi(ps, out)
 	genLocks(ps, out)
 	genTrustedSource(ps, out)
+	genEntities(ps, out)
+	genTmplUrlFacts(ps, out)
 	if len(failures) > 0 {
 		for _, f := range failures {
 			fmt.Println("translator: cannot extract", f)
